@@ -32,6 +32,9 @@ LIB_CONFIGS = {
     "tsanthr": (["-O1", "-g", "-fno-omit-frame-pointer", "-fsanitize=thread", "-DENABLE_THREADING=1",
                  "-DOVERRIDE_GET_RANDOM_SEED=extern int verif_seed_hook(void); return verif_seed_hook()"],
                 ["-fsanitize=thread", "-pthread"]),
+    "asanthr": (["-O1", "-g", "-fno-omit-frame-pointer", "-fsanitize=address,undefined", "-fno-sanitize-recover=undefined", "-DENABLE_THREADING=1",
+                 "-DOVERRIDE_GET_RANDOM_SEED=extern int verif_seed_hook(void); return verif_seed_hook()"],
+                ["-fsanitize=address,undefined", "-pthread"]),
     "plainthr": (["-O1", "-g", "-DENABLE_THREADING=1",
                   "-DOVERRIDE_GET_RANDOM_SEED=extern int verif_seed_hook(void); return verif_seed_hook()"],
                  ["-pthread"]),
@@ -194,7 +197,7 @@ def build_harness(pid, prop, config, fuzz=False):
             extra_c = []
             objs = []
             link = list(ldflags)
-            if prop.get("wrap_alloc", True) and config not in ("tsanthr", "plainthr"):
+            if prop.get("wrap_alloc", True) and config not in ("tsanthr", "plainthr", "asanthr"):
                 wo = os.path.join(d, "wrap_alloc-%s.o" % sha(config, file_hash([os.path.join(VERIF, "engine", "wrap_alloc.c")])))
                 if not os.path.exists(wo):
                     r = run([CC, "-O1", "-g", "-c", os.path.join(VERIF, "engine", "wrap_alloc.c"), "-o", wo + ".tmp"])
@@ -205,9 +208,9 @@ def build_harness(pid, prop, config, fuzz=False):
                 link += WRAP_LINK
             if prop.get("wrap_io"):
                 link += WRAP_IO_LINK
-            if config in ("asanseed", "tsanthr", "plainthr"):
+            if config in ("asanseed", "tsanthr", "plainthr", "asanthr"):
                 extra_c.append("-DVERIF_SEED_HOOK=1")
-            if config in ("tsanthr", "plainthr"):
+            if config in ("tsanthr", "plainthr", "asanthr"):
                 extra_c.append("-DVERIF_THREADED=1")
             cmd = [CXX, "-std=gnu++17", "-D_GNU_SOURCE", "-Wall", "-Wno-unused-function", "-Wno-unused-variable",
                    "-I" + cfgdir, "-I" + REPO, "-I" + os.path.join(VERIF, "engine"), "-I" + os.path.join(VERIF, "model")] + \
